@@ -319,8 +319,17 @@ impl<T> Default for Queue<T> {
 impl<T> Drop for Queue<T> {
     fn drop(&mut self) {
         while self.pop().is_some() {}
-        // release the stub
-        let _: Box<Node<T>> = unsafe { Box::from_raw(*self.tail.get()) };
+        // release the stub. It is the last consumed entry and somebody may still hold a
+        // handle to it: give up the list's reference like `pop` does for the node it
+        // leaves behind, the last reference frees the node
+        unsafe {
+            let tail = *self.tail.get();
+            (*tail).refs &= REF_COUNT_MASK;
+            (*tail).refs -= 1;
+            if (*tail).refs == 0 {
+                let _: Box<Node<T>> = Box::from_raw(tail);
+            }
+        }
     }
 }
 
